@@ -535,6 +535,9 @@ def cases(tier, seed):
     for role in ('passive', 'active'):
         for how in ('peer', 'own'):
             out.append(dict(id='givenup-%s-%s' % (role, how), kind='givenup', role=role, how=how))
+    # the one state that only a secured session can reach: the peer's SESS_INIT was refused (contact failure), the endpoint waits for
+    # the SESS_TERM reply; segments sent then are before-the-session messages (the C15 harness with its TLS layer is reused)
+    out.append(dict(id='after-refusal', kind='refused'))
     for idx in range(9000 if thorough else 24):
         out.append(dict(id='rand-%d' % idx, kind='rand', seed=seed * 7477 + idx, count=25))
     return out
@@ -559,6 +562,21 @@ def run_case(case):
             state = rng.choice(STATES[1:])
             alpha = _state_alphabet(state) + ['queue-own']
             items.append((rng.choice(['passive', 'active']), state, [rng.choice(alpha) for _ in range(rng.randint(3, 12))]))
+    if case['kind'] == 'refused':
+        from vf.props import c15
+        import collections
+        obs15 = collections.defaultdict(int)
+        for naming in ('passive', 'active-addr'):
+            for (ip, dns, uri, req_node) in (('match', 'absent', 'mismatch', False), ('match', 'absent', 'absent', True), ('mismatch', 'absent', 'match', False)):
+                row = dict(local_can=True, peer_can=True, require=None, hs_ok=True, naming=naming, ip=ip, dns=dns, uri=uri, req_host=False, req_node=req_node)
+                problems15, _want = c15.run_row(row, obs15)
+                obs['sequences'] += 1
+                obs['out_of_place_injected'] += 1
+                classes.add('refused|%s|%s|%s|%s' % (naming, ip, uri, req_node))
+                for (kind, text, _detail) in problems15:
+                    if kind in ('leak', 'raised'):
+                        violations.append(dict(key=None, what='[%s] after a refused SESS_INIT (%s): %s' % (kind, c15._short(row), text), detail=dict(row=c15._short(row))))
+        obs['reactions_seen'] += obs15.get('contact_failures', 0)
     if case['kind'] == 'givenup' and case['how'] == 'peer':
         for extra in (1, 2, 3):
             for flags in (tw.FLAG_END, tw.FLAG_START | tw.FLAG_END, 0, tw.FLAG_START):
